@@ -173,6 +173,29 @@ def bad_type(x: int) -> int:
 @guppy
 def py_call(x: int) -> int:
     return x + comptime(plain(1, 2))
+
+
+@guppy
+def rec_nested(n: int) -> int:
+    def fact(k: int) -> int:
+        if k <= 1:
+            return 1
+        return k * fact(k - 1)
+
+    return fact(n)
+
+
+@guppy
+def spin(x: int) -> int:
+    while True:
+        x += 1
+
+
+@guppy
+def spin_caller(x: int) -> int:
+    if x > 0:
+        return spin(x)
+    return x
 '''
 
 # name -> expected fresh-session behaviour (from the language definition)
@@ -187,7 +210,12 @@ POOL = [
     ("use_struct", "ok"), ("mono_closure_caller", "ok"), ("ct_raises", "compile-exc"),
     ("bad_type", "check-error"), ("py_call", "check-error"),
     ("ct", "ok"), ("closure", "ok"),
+    ("rec_nested", "ok"), ("spin", "ok"), ("spin_caller", "ok"),
 ]
+# second quick phase / third thorough phase: a NON-capturing recursive nested function (registered in
+# the enclosing frame's locals by check_nested_func_def) and a function whose exit block is
+# unreachable (compile_cfg's return-variable guard sees an exit block without predecessors)
+LATE_DEFS = ("rec_nested", "spin", "spin_caller")
 QUICK_DEFS = 9
 # definitions that are in the module (and reachable as dependencies) but are not
 # operated on directly, to keep the history tree affordable: Pt (through use_struct),
@@ -397,10 +425,11 @@ CORE_DEFS = ("plain", "busy", "ct", "ct_raises", "py_call", "mono_closure_caller
 def phases(quick: bool) -> list[tuple[str, list[int], int]]:
     """[(label, operation indices into OPS, depth)].  Every phase explores ALL sequences
     over its operations up to its depth."""
+    late = [i for i, (_w, nme) in enumerate(OPS) if nme in LATE_DEFS]
     if quick:
-        return [("quick-pool", list(range(2 * QUICK_DEFS)), 2)]
+        return [("quick-pool", list(range(2 * QUICK_DEFS)), 2), ("late-pool", late, 2)]
     core = [i for i, (_w, nme) in enumerate(OPS) if nme in CORE_DEFS]
-    return [("full-pool", list(range(len(OPS))), 2), ("core-pool", core, 3)]
+    return [("full-pool", list(range(len(OPS))), 2), ("core-pool", core, 3), ("late-pool", late, 3)]
 
 
 def run(ctx) -> dict:
